@@ -107,6 +107,9 @@ def plan(tier, seed):
         for s in range(0, total, 256):
             e = min(total, s + 256)
             units.append({"kind": "subenum", "H": H, "W": W, "start": s, "stop": e, "w": (e - s) * 6 * (2.3 + 0.6 * H * W)})
+    # realistic sizes: thousands of coordinates beyond the smallest border radius in one call (block / chunk boundaries)
+    for b in range(1 if tier == "quick" else 8):
+        units.append({"kind": "big", "index": b, "w": 4000.0})
     if tier == "thorough":
         units.append({"kind": "suite", "w": 200})      # the repository's own tests with the contracts installed
     return units
@@ -648,6 +651,14 @@ def run_unit(ctx, u):
             m, fam = reloc_mask(rng)
             ssz, subname = sub_map(rng, int((~m).sum()))
             run_case(ctx, "reloc:%d" % i, m, rng, fam, ssz, subname, full=True)
+    elif u["kind"] == "big":
+        rng = gen.rng_for(ctx.seed, NO, 3, u["index"])
+        H, W = int(rng.integers(24, 33)), int(rng.integers(26, 37))
+        yy, xx = np.indices((H, W))
+        cy, cx = (H - 1) / 2.0 + rng.uniform(-1, 1), (W - 1) / 2.0 + rng.uniform(-1, 1)
+        m = np.hypot((yy - cy) / (0.42 * H), (xx - cx) / (0.42 * W)) > 1.0
+        ssz = np.full(int((~m).sum()), int(rng.integers(3, 5)), dtype=np.int64)
+        run_case(ctx, "big:%d" % u["index"], m, rng, "large_ellipse", ssz, "uniform_%d" % int(ssz[0]), full=True)
     elif u["kind"] == "subenum":
         for bits, m in zip(range(u["start"], u["stop"]), gen.all_masks(u["H"], u["W"], u["start"], u["stop"])):
             for choice in range(6):
